@@ -40,7 +40,10 @@ rm -f /tmp/seed_$id.json
 git checkout -q -- .
 echo "confirm: build_rc=$rc_build demo_without_rc=$rc_without (want 0) demo_with_rc=$rc_with (want !=0) suite_rc=$rc_suite (want 0)" | tee -a "$log"
 if [ $rc_without -ne 0 ] || [ $rc_with -eq 0 ] || [ $rc_suite -ne 0 ] || [ $rc_build -ne 0 ]; then echo "NOT CONFIRMED" | tee -a "$log"; exit 3; fi
-# run our checks against /repo with the patch
+# run our checks against /repo with the patch (other check invocations wait meanwhile)
+exec 8>/tmp/.verif-repo.lock
+flock -x 8
+export SEEDTEST=1
 cd /repo && git apply "$patch" || { echo "patch does not apply to /repo"; exit 2; }
 res="$out/checks.log"; : > "$res"
 for c in "$@"; do
